@@ -128,6 +128,18 @@ type ZooCase struct {
 	Devs    int
 }
 
+type countPicker struct{ n int }
+
+func (c *countPicker) All(int, string) int { return 0 }
+func (c *countPicker) Dev(int, string) int { c.n++; return 0 }
+
+// zooSlots is the number of deviation points of the default value of a zoo type.
+func zooSlots(t *zoo.T) int {
+	cp := &countPicker{}
+	zoo.NewGen(cp).Make(t.Type)
+	return cp.n
+}
+
 // ForEachZoo enumerates every value of a zoo type within a deviation bound, one case per value.
 func ForEachZoo(c *core.Ctx, t *zoo.T, bound int, noAstral bool, fn func(zc *ZooCase)) {
 	forEachZooRaw(c, t, bound, noAstral, func(zc *ZooCase) {
